@@ -33,7 +33,7 @@ macro_rules! record_fn {
                 bounds: vec![],
                 nobounds: true,
                 polys: vec![],
-                rng: false, wf: true, note: String::new(),
+                rng: false, wf: true, note: String::new(), vsupported: -1,
                 ops: vec![],
                 adv: vec![],
                 expect: Default::default(),
